@@ -56,6 +56,21 @@ fn start_contract<const L: usize>()
     }
 }
 
+// ---------------------------------------------------------------------------------------------------------------
+// K.tracker.entity.prepare: `prepare` ALWAYS appends - also when an identical entry is already parked (two identical reactions
+// pending for one busy reactor are two deliveries: C12 / C03).  Restatement of the Verus-proved `prepare` on the compiled code.
+// ---------------------------------------------------------------------------------------------------------------
+//# id=K.tracker.entity.prepare.L2 props=C03,C12 strength=complete shape="parked list L=2, all contents; new entry symbolic (may equal a parked one)" tier=quick fns=EntityReactionAccessTracker::prepare
+#[kani::proof] #[kani::unwind(4)] fn k_tracker_entity_prepare_l2() {
+    let a: Elem = (any_sys(), any_entity(), any_rtype());
+    let b: Elem = (any_sys(), any_entity(), any_rtype());
+    let n: Elem = (any_sys(), any_entity(), any_rtype());
+    let mut t = EntityReactionAccessTracker{ currently_reacting: kani::any(), system: any_sys(), reaction_source: any_entity(), reaction_type: any_rtype(), prepared: vec![a, b] };
+    t.prepare(n.0, n.1, n.2);
+    assert!(t.prepared.len() == 3, "EntityReactionAccessTracker::prepare: the entry is appended even if an identical one is parked");
+    assert!(same(&t.prepared[0], &a) && same(&t.prepared[1], &b) && same(&t.prepared[2], &n), "EntityReactionAccessTracker::prepare: appended at the end, parked entries untouched");
+}
+
 //# id=K.tracker.entity.start.L0 props=C03,C12,C16 strength=complete shape="parked list L=0" tier=quick fns=EntityReactionAccessTracker::start
 #[kani::proof] #[kani::unwind(2)] fn k_tracker_entity_start_l0() { start_contract::<0>(); }
 //# id=K.tracker.entity.start.L1 props=C03,C12,C16 strength=complete shape="parked list L=1, all contents" tier=quick fns=EntityReactionAccessTracker::start
